@@ -103,7 +103,7 @@ func c14Targets(tier string) []c14Target {
 		add(gen.StructSpec{Fields: []gen.FieldType{pick("int64"), f, pick("int")}, Tags: []string{"zz", "b", "a"}})
 	}
 	add(gen.StructSpec{Fields: []gen.FieldType{pick("string"), pick("Inner"), pick("string")}, Tags: []string{"zz", ",inline", "a"}})
-	for _, v := range []interface{}{SeedMyInt(0), SeedMyMap(nil), SeedMySlice(nil), SeedRec{}, SeedRecSlice{}, SeedWithUnexported{}, SeedNamedFields{}, SeedBad1{}, SeedBad3{}, SeedBad4{}, SeedArrField{}, SeedMyArr{}, map[int]string(nil), [2]int{}, SeedHolder{}} {
+	for _, v := range []interface{}{SeedMyInt(0), SeedMyMap(nil), SeedMySlice(nil), SeedRec{}, SeedRecSlice{}, SeedWithUnexported{}, SeedNamedFields{}, SeedBad1{}, SeedBad3{}, SeedBad4{}, SeedArrField{}, SeedMyArr{}, map[int]string(nil), [2]int{}, SeedHolder{}, SeedTreeMap(nil), SeedTreeSlice(nil), SeedPtrList(nil), SeedMapOfSlices(nil), SeedHasTrees{}} {
 		out = append(out, c14Target{name: fmt.Sprintf("%T", v), t: reflect.TypeOf(v)})
 	}
 	return out
@@ -390,6 +390,14 @@ func c14Families(tier string) []engine.Family {
 		{Name: "In", Type: gen.Inner, Tag: `struct:",inline"`}, {Name: "Opt", Type: reflect.PtrTo(reflect.TypeOf(0)), Tag: `struct:"o,omitempty"`}})
 	docs = append(docs, doc{name: "tagged<-object", mk: func() reflect.Value { return reflect.New(tagged) }, evs:
 		[]model.Event{model.ObjStart(-1, 0), model.KeyRef("nm"), model.StrRef("abc"), model.KeyRef("secret"), model.StrRef("leak"), model.KeyRef("name"), model.StrRef("zzz"), model.KeyRef("x"), model.SInt(model.KInt8, 80), model.KeyRef("o"), model.SInt(model.KInt8, 1), model.ObjEnd()}})
+	// targets that must be refused, sharing a self-referential struct type: whatever was compiled on the way to the refusal
+	// must not make a later SetTarget accept what a new unfolder refuses
+	{
+		one := []model.Event{model.ObjStart(-1, 0), model.KeyRef("next"), model.Nil(), model.ObjEnd()}
+		docs = append(docs, doc{name: "SeedBadRec<-object (unsupported)", mk: func() reflect.Value { return reflect.New(reflect.TypeOf(SeedBadRec{})) }, evs: one, cuts: []int{len(one)}},
+			doc{name: "[]SeedBadRec<-array (unsupported)", mk: func() reflect.Value { return reflect.New(reflect.TypeOf([]SeedBadRec{})) }, evs: append(append([]model.Event{model.ArrStart(-1, 0)}, one...), model.ArrEnd()), cuts: []int{6}},
+			doc{name: "**SeedBadRec<-object (unsupported)", mk: func() reflect.Value { return reflect.New(reflect.TypeOf((**SeedBadRec)(nil))) }, evs: one, cuts: []int{len(one)}})
+	}
 	// documents nested beyond the unfolder's inline stacks (32 entries; they grow at 33 and 65): abandoned around those depths
 	{
 		var deepEvs []model.Event
@@ -464,7 +472,11 @@ func c14Families(tier string) []engine.Family {
 				first = false
 				t := d.mk()
 				if err := u.SetTarget(t.Interface()); err != nil {
-					return fmt.Errorf("SetTarget: %v", err)
+					// a refused target is an outcome like any other: a new unfolder must refuse it as well
+					if last {
+						out = "target refused|" + errStr(err)
+					}
+					return nil
 				}
 				var derr error
 				for _, e := range d.evs[:k] {
